@@ -15,6 +15,7 @@ import EaselModel.Sqio.BlockSpec
 import EaselModel.Sqio.RoundTrip
 import EaselModel.Sqio.LineSpec
 import EaselModel.Sqio.RevWindowSpec
+import EaselModel.Sqio.EmblSpec
 /-! # C04 — all ways of reading a sequence file agree with each other and with the file
 
 Property theorems only (proofs are glue on `Sqio/Windows.lean`, `Sqio/Refine.lean`, `Sqio/Spec.lean`).
@@ -31,7 +32,8 @@ description, residues, true `roff` / `hoff` / `doff` / `eoff`, `L`), hence is bl
 `Read` (`windows_concat_eq_read`, see the section at the end); the window schedule (forward and reverse) tiles `1..L`
 (`fwd_windows_tile`, `rev_windows_tile`). Still tied by the exact differential run + monitors only: the line-based formats,
 reverse-strand windows when the handle holds a line geometry (without one: `rev_first_window_eq_revcomp_slice`, `rev_next_window_eq_revcomp_slice`),
-long-target `ReadBlock`, digital-mode write + re-read (text mode: `write_read_roundtrip`). -/
+long-target `ReadBlock`; the line-based formats: block-size independence of `Read` is a theorem (`read_linebased_block_size_independent`),
+`Read` = a declarative parser is not. -/
 namespace EaselModel.Props.C04
 open EaselModel.Sqio EaselModel.Sqio.Windows
 
@@ -363,8 +365,8 @@ open EaselModel.Sqio.Cursor EaselModel.Sqio.ReadSpec EaselModel.Sqio.WindowSerie
     succeeds with residues `R`, the loop `while (esl_sqio_ReadWindow(sqfp, C_k, W_k, sq) == eslOK)` on the same handle returns exactly
     the declarative windows of `R` (`Sqio/WinSpecPure.lean`: context = the `min C_k (previous window size)` preceding residues, `min W_k
     (residues left)` new ones, `start = d − c + 1`, `end = d + w`, residues `R[start..end]`), then `eslEOD` with `L = |R|` and an empty
-    window, reports the same name / accession / description / `roff` / `hoff` / `doff`, and leaves the cursor on the byte where `Read`
-    leaves it (so the next record starts identically for both). -/
+    window, reports the same name / accession / description / `roff` / `hoff` / `doff` (`hdrOf`: also mode and string allocations), and
+    leaves the cursor on the byte where `Read` leaves it (so the next record starts identically for both: `windows_then_ready`). -/
 theorem windows_eq_read (a : Ascii) (sq : Sq) (R : Ready a sq) (hs : sq.seq = #[]) (hst : sq.start = 0)
     (hok : (read a sq).2.2 = .ok) (req : Nat → Int × Int) (hreq : ∀ k, 0 ≤ (req k).1 ∧ 1 ≤ (req k).2) :
     (readWindowsM req ((read a sq).2.1.seq.size + 2) 0 a sq).1.map toWin =
@@ -373,11 +375,23 @@ theorem windows_eq_read (a : Ascii) (sq : Sq) (R : Ready a sq) (hs : sq.seq = #[
     (readWindowsM req ((read a sq).2.1.seq.size + 2) 0 a sq).2.2.1.seq = #[] ∧
     (readWindowsM req ((read a sq).2.1.seq.size + 2) 0 a sq).2.2.1.L = (read a sq).2.1.L ∧
     (readWindowsM req ((read a sq).2.1.seq.size + 2) 0 a sq).2.2.1.start = 0 ∧
-    idOf (readWindowsM req ((read a sq).2.1.seq.size + 2) 0 a sq).2.2.1 = idOf (read a sq).2.1 ∧
+    hdrOf (readWindowsM req ((read a sq).2.1.seq.size + 2) 0 a sq).2.2.1 = hdrOf (read a sq).2.1 ∧
     Cur (readWindowsM req ((read a sq).2.1.seq.size + 2) 0 a sq).2.1 ∧
     DataScan.fileFrom (readWindowsM req ((read a sq).2.1.seq.size + 2) 0 a sq).2.1 = DataScan.fileFrom (read a sq).1 ∧
     stat (readWindowsM req ((read a sq).2.1.seq.size + 2) 0 a sq).2.1 = stat a :=
   WindowSeries.windows_eq_read a sq R hs hst hok req hreq
+
+open EaselModel.Sqio.ReadSpec EaselModel.Sqio.WindowSeries in
+/-- **the window loop composes over the records of a file**: after the `eslEOD` that ends a record's window series, the handle and the
+    `ESL_SQ` are ready for the next record exactly as after `sqascii_Read` + `esl_sq_Reuse` — `Ready` again, cursor on the same byte,
+    `start = 0`, no residues — so `windows_eq_read` applies to the next record, and so on through the file -/
+theorem windows_then_ready (a : Ascii) (sq : Sq) (R : Ready a sq) (hs : sq.seq = #[]) (hst : sq.start = 0)
+    (hok : (read a sq).2.2 = .ok) (req : Nat → Int × Int) (hreq : ∀ k, 0 ≤ (req k).1 ∧ 1 ≤ (req k).2) :
+    Ready (readWindowsM req ((read a sq).2.1.seq.size + 2) 0 a sq).2.1 (readWindowsM req ((read a sq).2.1.seq.size + 2) 0 a sq).2.2.1 ∧
+    (readWindowsM req ((read a sq).2.1.seq.size + 2) 0 a sq).2.2.1.seq = #[] ∧
+    (readWindowsM req ((read a sq).2.1.seq.size + 2) 0 a sq).2.2.1.start = 0 ∧
+    DataScan.fileFrom (readWindowsM req ((read a sq).2.1.seq.size + 2) 0 a sq).2.1 = DataScan.fileFrom (read a sq).1 :=
+  WindowSeries.windows_then_ready a sq R hs hst hok req hreq
 
 open EaselModel.Sqio.ReadSpec EaselModel.Sqio.WindowSeries EaselModel.Sqio.WinSpecPure in
 /-- **`windows_concat_eq_read`**: the new (non-context) parts of the windows, concatenated in call order, are exactly the residue array
@@ -483,6 +497,26 @@ theorem write_read_roundtrip (rs : List (List UInt8 × List UInt8 × List UInt8)
     simp only [expected, List.map_cons, ih (fun r' hr' => hg r' (by simp [hr'])),
       text_map_id_list r.2.2 (hg r (by simp)).res]
 
+open EaselModel.Sqio.RoundTrip EaselModel.Sqio.SpecFasta EaselModel.Sqio.HeaderSpec in
+/-- **Write + re-read in digital mode (DNA / RNA / amino), for every block size**: records whose residues are codes of the alphabet other
+    than the gap code are written as symbols (`textize`, what `esl_sqascii_WriteFasta` prints: `writeFasta_is_fastaText_digital`) and
+    `specFasta abc` — the reader in the same digital mode, for every `B ≥ 1` — returns the same names, descriptions and CODES. (The gap
+    code is excluded because the reader does not accept `-` as a residue; a record that came from a FASTA file never holds one.) -/
+theorem write_read_roundtrip_digital (abc : Nat) (habc : abc ∈ [1, 2, 3]) (rs : List (List UInt8 × List UInt8 × List UInt8))
+    (hn : ∀ r ∈ rs, r.1 ≠ [] ∧ (∀ c ∈ r.1, isSpace c = false) ∧ (∀ c ∈ r.2.1, pDesc c = true) ∧
+      (∀ c t, r.2.1 = c :: t → isBlankTab c = false) ∧ ∀ x ∈ r.2.2, CodeOk abc x) :
+    specFasta abc (allText (rs.map fun r => (r.1, r.2.1, textize abc r.2.2))) =
+      (expected (abcInmap abc) (allText (rs.map fun r => (r.1, r.2.1, textize abc r.2.2))).length
+         (rs.map fun r => (r.1, r.2.1, textize abc r.2.2)), .eof) ∧
+    (expected (abcInmap abc) (allText (rs.map fun r => (r.1, r.2.1, textize abc r.2.2))).length
+       (rs.map fun r => (r.1, r.2.1, textize abc r.2.2))).map (fun x => (x.name, x.desc, x.seq)) = rs :=
+  RoundTrip.specFasta_allText_digital abc habc rs hn
+
+open EaselModel.Sqio.RoundTrip in
+theorem writeFasta_is_fastaText_digital (sq : Sq) (hd : sq.digital = true) (ha : cstr sq.acc = #[]) (hn : cstr sq.name = sq.name)
+    (hds : cstr sq.desc = sq.desc) : writeFasta sq = fastaText sq.name.toList sq.desc.toList (textize sq.abc sq.seq.toList) :=
+  RoundTrip.writeFasta_digital sq hd ha hn hds
+
 open EaselModel.Sqio.RoundTrip in
 /-- `allText` is made of what the model of `esl_sqascii_WriteFasta` writes (text mode, no accession, strings without NUL) -/
 theorem writeFasta_is_fastaText (sq : Sq) (hd : sq.digital = false) (ha : cstr sq.acc = #[]) (hn : cstr sq.name = sq.name)
@@ -583,5 +617,45 @@ theorem open_line_based (file : Bytes) (B abc fmt : Nat) (eofOk : Bool) (inmap :
     (loadbuf { file := file, B := B, abc := abc, fmt := fmt, eofIsOk := eofOk, linebased := true, inmap := inmap }).1.boff = 0 ∧
     (loadbuf { file := file, B := B, abc := abc, fmt := fmt, eofIsOk := eofOk, linebased := true, inmap := inmap }).2 =
       (if file.toList = [] then .eof else .ok) := LineSpec.open_line file B abc fmt eofOk inmap hB
+
+
+/-! ## EMBL / UniProt / GenBank / DDBJ: the record readers are block-size independent (round 4, `Sqio/EmblSpec.lean`)
+
+By simulation: the readers of the line-based formats touch the handle only through `loadbuf` (one line per call), the line buffer, `nc`
+and `boff`; two handles on the same line (`LSim`, any two block sizes) therefore stay on the same line through `skipLinesWhile`,
+`emblScan` / `genbankScan` (`ID` / `AC` / `DE` / `SQ`, `LOCUS` / `VERSION` / `DEFINITION` / `ORIGIN` lines), the residue loop (`seebuf` /
+`addbuf` read `line[i]`), `end_embl` / `end_genbank`. -/
+
+open EaselModel.Sqio.LineSpec EaselModel.Sqio.EmblSpec in
+/-- **`header_embl` / `skip_embl` return the same status and the same `ESL_SQ` for any two block sizes** (`parse = false`: `skip_embl`) -/
+theorem header_embl_block_size_independent (parse : Bool) (a1 a2 : Ascii) (sq : Sq) (h : LSim a1 a2) :
+    (headerEmbl parse a1 sq).2.2 = (headerEmbl parse a2 sq).2.2 ∧ (headerEmbl parse a1 sq).2.1 = (headerEmbl parse a2 sq).2.1 ∧
+    LSim (headerEmbl parse a1 sq).1 (headerEmbl parse a2 sq).1 := EmblSpec.headerEmbl_block_size_independent parse a1 a2 sq h
+
+open EaselModel.Sqio.LineSpec EaselModel.Sqio.EmblSpec in
+/-- the same for `header_genbank` / `skip_genbank` -/
+theorem header_genbank_block_size_independent (parse : Bool) (a1 a2 : Ascii) (sq : Sq) (h : LSim a1 a2) :
+    (headerGenbank parse a1 sq).2.2 = (headerGenbank parse a2 sq).2.2 ∧
+    (headerGenbank parse a1 sq).2.1 = (headerGenbank parse a2 sq).2.1 ∧
+    LSim (headerGenbank parse a1 sq).1 (headerGenbank parse a2 sq).1 := EmblSpec.headerGenbank_block_size_independent parse a1 a2 sq h
+
+open EaselModel.Sqio.LineSpec EaselModel.Sqio.EmblSpec in
+/-- **`sqascii_Read` on an EMBL / UniProt / GenBank / DDBJ file is block-size independent — the whole call, every record field**: from two
+    handles on the same line with any two block sizes `B₁, B₂ ≥ 1`, same status, same `ESL_SQ` (name, accession, description, residues,
+    `roff` / `hoff` / `doff` / `eoff`, `L`, coordinates, allocations), and the handles are on the same line again — so the statement
+    iterates over all records of the file; `open_line_based_sim` starts it at `esl_sqfile_Open`. -/
+theorem read_linebased_block_size_independent (a1 a2 : Ascii) (sq : Sq) (h : LSim a1 a2)
+    (hf : a1.fmt = 2 ∨ a1.fmt = 3 ∨ a1.fmt = 4 ∨ a1.fmt = 5) :
+    (read a1 sq).2.2 = (read a2 sq).2.2 ∧ (read a1 sq).2.1 = (read a2 sq).2.1 ∧ LSim (read a1 sq).1 (read a2 sq).1 :=
+  EmblSpec.read_embl_block_size_independent a1 a2 sq h hf
+
+open EaselModel.Sqio.LineSpec EaselModel.Sqio.EmblSpec in
+/-- two handles opened on the same line-based file with block sizes `B₁, B₂ ≥ 1` stand on the same first line, same open status -/
+theorem open_line_based_sim (file : Bytes) (B1 B2 abc fmt : Nat) (eofOk : Bool) (inmap : Bytes) (h1 : 1 ≤ B1) (h2 : 1 ≤ B2) :
+    LSim (loadbuf { file := file, B := B1, abc := abc, fmt := fmt, eofIsOk := eofOk, linebased := true, inmap := inmap }).1
+      (loadbuf { file := file, B := B2, abc := abc, fmt := fmt, eofIsOk := eofOk, linebased := true, inmap := inmap }).1 ∧
+    (loadbuf { file := file, B := B1, abc := abc, fmt := fmt, eofIsOk := eofOk, linebased := true, inmap := inmap }).2 =
+      (loadbuf { file := file, B := B2, abc := abc, fmt := fmt, eofIsOk := eofOk, linebased := true, inmap := inmap }).2 :=
+  EmblSpec.open_lsim file B1 B2 abc fmt eofOk inmap h1 h2
 
 end EaselModel.Props.C04
